@@ -116,4 +116,134 @@ theorem exec_gen_mulDiffer (h : Store) (a b : Nat) (q : Rat) (x y : Model) (ha :
       rw [List.getElem?_append_right (by simp)]; simp
     rw [this]
 
+def evalStore (x : Label → Rat) (h : Store) : List Rat := h.map (·.eval x)
+
+def stepE (e : List Rat) : Instr → Option (List Rat)
+  | .copy s => e[s]?.map fun v => e ++ [v]
+  | .fromBqm s => e[s]?.map fun v => e ++ [v]
+  | .newQM => some (e ++ [0])
+  | .scale d q => e[d]?.map fun v => e.set d (q * v)
+  | .addOffset d q => e[d]?.map fun v => e.set d (v + q)
+  | .update d s => match e[d]?, e[s]? with | some v, some w => some (e.set d (v + w)) | _, _ => none
+  | .mulNew _ _ => none
+
+def execE (e : List Rat) : List Instr → Option (List Rat)
+  | [] => some e
+  | i :: is => match stepE e i with | some e' => execE e' is | none => none
+
+theorem eval_upd (m o m' : Model) (x : Label → Rat) (h : upd m o = .ok m') : m'.eval x = m.eval x + o.eval x := by
+  unfold upd at h
+  split at h
+  · exact eval_qmUpdate m o m' x h
+  · simp only [Except.ok.injEq] at h; subst h; exact eval_bqmUpdate m o x
+
+theorem step_evalE (x : Label → Rat) (h h' : Store) (i : Instr) (hs : step h i = .ok h') (hm : ∀ a b, i ≠ .mulNew a b) :
+    stepE (evalStore x h) i = some (evalStore x h') := by
+  cases i with
+  | mulNew a b => exact absurd rfl (hm a b)
+  | copy s =>
+    simp only [step] at hs
+    split at hs
+    · rename_i m hm'
+      simp only [Except.ok.injEq] at hs; subst hs
+      simp [stepE, evalStore, List.getElem?_map, hm']
+    · simp at hs
+  | fromBqm s =>
+    simp only [step] at hs
+    split at hs
+    · rename_i m hm'
+      simp only [Except.ok.injEq] at hs; subst hs
+      simp [stepE, evalStore, List.getElem?_map, hm', eval_toQM]
+    · simp at hs
+  | newQM =>
+    simp only [step, Except.ok.injEq] at hs; subst hs
+    simp [stepE, evalStore, eval_emptyQM]
+  | scale d q =>
+    simp only [step] at hs
+    split at hs
+    · rename_i m hm'
+      simp only [Except.ok.injEq] at hs; subst hs
+      simp [stepE, evalStore, List.getElem?_map, hm', setAt, List.map_set, eval_scale]
+    · simp at hs
+  | addOffset d q =>
+    simp only [step] at hs
+    split at hs
+    · rename_i m hm'
+      simp only [Except.ok.injEq] at hs; subst hs
+      simp [stepE, evalStore, List.getElem?_map, hm', setAt, List.map_set, eval_addOffset]
+    · simp at hs
+  | update d s =>
+    simp only [step] at hs
+    split at hs
+    · rename_i m o hm' ho'
+      split at hs
+      · rename_i m' hu
+        simp only [Except.ok.injEq] at hs; subst hs
+        simp [stepE, evalStore, List.getElem?_map, hm', ho', setAt, List.map_set, eval_upd m o m' x hu]
+      · simp at hs
+    · simp at hs
+
+def noMul (p : List Instr) : Bool := p.all fun i => match i with | .mulNew _ _ => false | _ => true
+
+theorem exec_evalE (x : Label → Rat) (p : List Instr) (h h' : Store) (he : exec h p = .ok h') (hm : noMul p = true) :
+    execE (evalStore x h) p = some (evalStore x h') := by
+  induction p generalizing h with
+  | nil => simp only [exec, Except.ok.injEq] at he; subst he; rfl
+  | cons i is ih =>
+    simp only [noMul, List.all_cons, Bool.and_eq_true] at hm
+    simp only [exec] at he
+    split at he
+    · rename_i h1 hs
+      have h1' := step_evalE x h h1 i hs (by intro a b e; subst e; simp at hm)
+      simp only [execE, h1']
+      exact ih h1 he hm.2
+    · simp at he
+
+/-- from the energy semantics of a list of forms to the energies of the objects the real store run returns -/
+theorem forms_energy (L : List (List Instr × Nat)) (ea eb want : Rat)
+    (hE : ∀ pr ∈ L, noMul pr.1 = true ∧ ∃ e', execE [ea, eb] pr.1 = some e' ∧ e'[pr.2]? = some want)
+    (x y : Model) (s : Label → Rat) (hx : x.eval s = ea) (hy : y.eval s = eb) :
+    ∀ pr ∈ L, ∀ h', exec [x, y] pr.1 = .ok h' → (h'[pr.2]?).map (·.eval s) = some want := by
+  intro pr hpr h' he
+  obtain ⟨hm, e', h1, h2⟩ := hE pr hpr
+  have h3 := exec_evalE s pr.1 [x, y] h' he hm
+  simp only [evalStore, List.map, hx, hy] at h3
+  rw [h1] at h3
+  injection h3 with h3
+  subst h3
+  rw [← List.getElem?_map]
+  exact h2
+
+theorem addForms_E (ea eb q : Rat) :
+    ∀ pr ∈ Generated.addForms q, noMul pr.1 = true ∧ ∃ e', execE [ea, eb] pr.1 = some e' ∧ e'[pr.2]? = some (ea + eb) := by
+  simp [Generated.addForms, execE, stepE, noMul]
+
+theorem subForms_E (ea eb q : Rat) :
+    ∀ pr ∈ Generated.subForms q, noMul pr.1 = true ∧ ∃ e', execE [ea, eb] pr.1 = some e' ∧ e'[pr.2]? = some (ea - eb) := by
+  simp [Generated.subForms, execE, stepE, noMul] <;> ring_nf
+
+theorem addNumForms_E (ea eb q : Rat) :
+    ∀ pr ∈ Generated.addNumForms q, noMul pr.1 = true ∧ ∃ e', execE [ea, eb] pr.1 = some e' ∧ e'[pr.2]? = some (ea + q) := by
+  simp [Generated.addNumForms, execE, stepE, noMul]
+
+theorem subNumForms_E (ea eb q : Rat) :
+    ∀ pr ∈ Generated.subNumForms q, noMul pr.1 = true ∧ ∃ e', execE [ea, eb] pr.1 = some e' ∧ e'[pr.2]? = some (ea - q) := by
+  simp [Generated.subNumForms, execE, stepE, noMul] <;> ring_nf
+
+theorem rsubNumForms_E (ea eb q : Rat) :
+    ∀ pr ∈ Generated.rsubNumForms q, noMul pr.1 = true ∧ ∃ e', execE [ea, eb] pr.1 = some e' ∧ e'[pr.2]? = some (q - ea) := by
+  simp [Generated.rsubNumForms, execE, stepE, noMul] <;> ring_nf
+
+theorem scaleForms_E (ea eb q : Rat) :
+    ∀ pr ∈ Generated.scaleForms q, noMul pr.1 = true ∧ ∃ e', execE [ea, eb] pr.1 = some e' ∧ e'[pr.2]? = some (q * ea) := by
+  simp [Generated.scaleForms, execE, stepE, noMul]
+
+theorem negForms_E (ea eb q : Rat) :
+    ∀ pr ∈ Generated.negForms q, noMul pr.1 = true ∧ ∃ e', execE [ea, eb] pr.1 = some e' ∧ e'[pr.2]? = some (-ea) := by
+  simp [Generated.negForms, execE, stepE, noMul]
+
+theorem divForms_E (ea eb q : Rat) :
+    ∀ pr ∈ Generated.divForms q, noMul pr.1 = true ∧ ∃ e', execE [ea, eb] pr.1 = some e' ∧ e'[pr.2]? = some (ea / q) := by
+  simp [Generated.divForms, execE, stepE, noMul] <;> ring_nf
+
 end Sym
